@@ -62,6 +62,13 @@ CLAIMED = {
     'C13': dict(text='Proved for every program of enter/exit/raise events: C13_unwind_invariant, C13_restore, C13_raise_restores, C13_scope*, '
                      'C13_cfg_reads_mode, C13_ordereddict_unaffected. All well-nested programs to a nesting bound run through the real context manager.' + PARTIAL,
                 technique='Lean 4 proof (invariant over event sequences) + correspondence on programs', ref='6 C13'),
+    'C14': dict(text='Proved about a heap model of hand-outs: C14_handouts_fresh_sound (if every inspection method copies, no sequence of '
+                     'inspections and mutations of returned objects changes any internal container; all histories) with converse C14_alias_breaks; '
+                     'generated obligations C14_handouts_fresh / C14_handouts_listed / C14_sorts_on_copies / C14_python_operands_unmodified re-read '
+                     'treespec.cpp, flatten.cpp, every TotalOrderSort call site and the Python layer (ast) on every run; C14_unflatten_ignores_registry. '
+                     'Reference counts, weak references, freeing of the source tree and the cyclic collector are not modelled: observed on the '
+                     'implementation only (snapshots around 50 operations, random orders of mutate / unregister / re-register / delete / gc).' + PARTIAL,
+                technique='Lean 4 proof (heap-alias invariant over histories) with obligations regenerated from the source + correspondence + runtime oracle', ref='6 C14'),
     'C18': dict(text='Proved: C18_sort_twin / C18_sort_spec (the C++ TotalOrderSort with its restore-on-failure and the Python total_order_sorted '
                      'compute the same list for every key list), C18_namedtuple_twin, C18_structseq_twin (C++ and Python classification predicates '
                      'agree on every realisable class description), C18_one_level_twin, C18_cache_inv / C18_cache_transparent (the bounded, '
